@@ -196,6 +196,21 @@ class GlobalFacts:
         return events
 
     # ---------------------------------------------------------------- interprocedural fixpoint
+    def collect(self, funcs):
+        """Only gather writers / mutators / readers of every tracked global (no fixpoint)."""
+        for q, f in funcs.items():
+            if f.module.name not in self.mod_globals:
+                continue
+            cfg = self.ctx.cfg(f)
+            for n in cfg.nodes:
+                for kind, what, node in self.node_events(f, n):
+                    if kind == "write":
+                        self.writers.setdefault(what, set()).add(q)
+                    elif kind == "mut":
+                        self.mutators.setdefault(what, set()).add(q)
+                    elif kind == "read":
+                        self.readers.setdefault(what, []).append((f, node))
+
     def solve(self, funcs):
         """funcs: dict qual -> FuncInfo (the reachable set)."""
         universe = {(m, g) for m in self.modules for g in self.mod_globals[m]}
